@@ -131,7 +131,7 @@ ACTIVE = (_claimed_env.split(",") if _claimed_env else
 CLAIMS = {k: v for k, v in CLAIMS.items() if k in ACTIVE}
 
 NOT_APPLICABLE = {
- "C01": "multi-instance, multi-interval convergence; needs the foreign-master lists and timers over time - beyond any bounded unrolling CBMC can carry here (list operations alone time out) and there is no inductive per-step invariant that implies global convergence",
+ "C01": "convergence of several instances over many announce intervals: not an invariant of one step (no inductive per-step invariant implies global convergence), and a bounded unrolling is out of reach - one BMCA run of a two-port instance alone costs 6-15 min / 10 GB of CBMC, the property needs several instances times sixteen intervals",
  "C02": "closed-loop convergence of a floating-point Kalman servo over hundreds of steps; bit-precise f64 matrix algebra does not unroll (one command stage = 500 s of CBMC), and reals are not floats",
  "C19": "serde_json + fmt/String formatting + HTTP framing in a tokio binary: not encodable for a bit-precise solver; no MIR-level model of serde",
  "C20": "liveness of an async TCP accept loop under I/O faults: tokio runtime and kernel are not modellable by the engines available",
